@@ -2070,3 +2070,10 @@ def s_trim_matches(m, st, info, args):
 def s_trim(m, st, info, args):
     d = info["def"]
     return _trim(m, as_str(m, args[0]), "ws", not d.endswith("trim_end"), not d.endswith("trim_start"))
+
+
+@summary(r"<std::collections::HashMap<K, V, S, A> as std::clone::Clone>::clone",
+         r"<std::collections::HashSet<T, S, A> as std::clone::Clone>::clone")
+def s_map_clone(m, st, info, args):
+    mp = map_of(m, args[0])
+    return MapVal([[copy_value(k), copy_value(v)] for k, v in mp.entries])
